@@ -9,7 +9,7 @@ import (
 	"github.com/dadrus/heimdall/internal/rules/rule"
 )
 
-func VerifNewRepository(f rule.Factory) rule.Repository   { return newRepository(f) }
+func VerifNewRepository(f rule.Factory) rule.Repository    { return newRepository(f) }
 func VerifNewRuleExecutor(r rule.Repository) rule.Executor { return newRuleExecutor(r) }
 
 // VerifRepoDump renders the private state of the repository: known rules in
